@@ -3,7 +3,8 @@ import re
 from . import concref as CR
 from .p_c05 import ConcBase
 
-PROGS = ["f0", "f0 d0", "k0 d0 d1", "f0 f1 d0 d1", "l0 d0", "d0", "f0 k1 d0", "c0:1 d0 s1", "f0 d1 f0", "k0 k0 d0"]
+PROGS = ["f0", "f0 d0", "k0 d0 d1", "f0 f1 d0 d1", "l0 d0", "d0", "f0 k1 d0", "c0:1 d0 s1", "f0 d1 f0", "k0 k0 d0",
+         "a0", "a0 d0", "a0 a1 d0 d1", "z0 d0", "a0 n1 d0"]
 
 
 def handles_ref(case, raw):
